@@ -188,7 +188,14 @@ impl CacheBuffer {
     
     /// Reserve capacity for buffer
     pub fn reserve(&mut self, capacity: usize) {
+        let slice_len = self.data_slice.map(|slice| slice.len());
         self.data_buffer.reserve(capacity);
+        
+        // The reservation may have moved the buffer: point the data slice at it again
+        if let Some(len) = slice_len {
+            let data_ptr = self.data_buffer.as_ptr();
+            self.data_slice = Some(unsafe { std::slice::from_raw_parts(data_ptr, len) });
+        }
     }
     
     /// Get buffer capacity
